@@ -16,9 +16,9 @@ import (
 // C01: Newick write/parse round trip.
 
 var c01Floats = []float64{1, 0, math.Copysign(0, -1), 0.1 + 0.2, 1e-7, 1e21, 5e-324, 1.7976931348623157e308, 123456789.12345679, -2.5, 0.000001, 1e-300}
-var c01TipNames = []string{"1", "1e5", "a b", "é", "-0.5", "TREE", "x/y", "0x1p-2", "Inf", "a'b", "1/2", "1 b", "a 1", "1 2", "'Akepa", "'I'iwi", "O'", "t1"} // ("t1": the default name of the first tip - two tips with one name)
+var c01TipNames = []string{"1", "1e5", "a b", "é", "-0.5", "TREE", "x/y", "0x1p-2", "Inf", "a'b", "1/2", "1 b", "a 1", "1 2", "'Akepa", "GC_50%d", "t1"} // ("t1": the default name of the first tip - two tips with one name)
 var c01InnerNames = []string{"n", "in ner", "'q d'", "BEGIN", "é1", "1x", "a/b", "1/x", "x 1", "2009/H1N1"}
-var c01Comments = [][]string{{"c"}, {""}, {"a b"}, {"x;y"}, {"(:,"}, {"&k={a,b}"}, {"c1", "c2"}, {"c1", "c2", "c3"}, {"["}, {" lead"}, {"1.5"}, {"0.99 "}, {" 1"}, {"a 1 ,b"}, {"&hpd=(0.25 , 0.75 )"}, {"1 2"}, {"trail "}, {"  two"}, {"\ttab"}, {"a,  b"}, {"x(\t y"}, {"l1\nl2"}, {"&note:'87 isolate"}, {"x,'y"}, {"'"}}
+var c01Comments = [][]string{{"c"}, {""}, {"a b"}, {"x;y"}, {"(:,"}, {"&k={a,b}"}, {"c1", "c2"}, {"c1", "c2", "c3"}, {"["}, {" lead"}, {"1.5"}, {"0.99 "}, {" 1"}, {"a 1 ,b"}, {"&hpd=(0.25 , 0.75 )"}, {"1 2"}, {"trail "}, {"  two"}, {"\ttab"}, {"a,  b"}, {"x(\t y"}, {"l1\nl2"}, {"&note:'87 isolate"}, {"x,'y"}, {"&conf=100%s"}}
 
 type c01slot struct {
 	n     int // menu size incl. default 0
@@ -89,6 +89,12 @@ func c01variant(s string, v int) string {
 		return r.Replace(s)
 	case 2:
 		return "\n\t " + s + "  \n"
+	case 3:
+		// a text folded across lines: the break falls right after a label or a number
+		if strings.Count(s, "[") > 0 {
+			return s
+		}
+		return strings.NewReplacer(",", "\n,", ")", "\n)", ":", "\n:").Replace(s)
 	}
 	return s
 }
@@ -239,6 +245,14 @@ func init() {
 							}
 						}
 					})
+				}
+			}
+			// inner nodes with a single child (sampled ancestors; what RemoveSingleNodes exists for) are trees too
+			if c.Shard == 0 {
+				for _, txt := range []string{"((a)x,b,c);", "((a:1)x:2,b:1,c:1);", "(((a,b))y,c,d);", "((a:1):2,b:1,c:1);", "(((a:1,b:2)0.5:1)0.25:3,c:1,(d:1)e:2);"} {
+					m := rm.MustParse(txt)
+					c.Count("trees_with_single_child_nodes", 1)
+					c.Check(c01case{Model: txt}, func() (string, string) { return c01check(m, 0) })
 				}
 			}
 			// whatever the size: large structured instances (plain executions, not exhaustive)
